@@ -167,6 +167,9 @@ def explore(run):
         extobj_probe(run, sc)
         if run.full():
             return
+        datetime_probe(run, sc)
+        if run.full():
+            return
         if thorough:
             big(run, sc)
         else:
@@ -219,6 +222,55 @@ def extobj_probe(run, sc):
         if not ok:
             run.violation(case, {"what": "the Value of a variable holding an ExtensionObject with TypeId %s is not that extension object" %
                                  (("ns=%d;" % ns_ if ns_ else "") + "i=%d" % i_), "impl": repr(v)[:300]})
+            return
+
+
+def datetime_probe(run, sc):
+    """DateTime Values in every lexical form of xs:dateTime (Z, a numeric offset, no zone designator; scalar and in lists):
+    the cell holds that point in time with that offset, not another one"""
+    import os
+    import datetime as dtm
+    from opcua_tools.nodeset_parser import parse_xml_files
+    rng = run.rng
+    T = "http://opcfoundation.org/UA/2008/02/Types.xsd"
+    forms = [("Z", 0), ("+00:00", 0), ("+02:00", 120), ("-05:00", -300), ("+05:30", 330), ("-09:30", -570), ("", None)]
+    items = []
+    for j in range(10):
+        base = dtm.datetime(rng.randint(1971, 2090), rng.randint(1, 12), rng.randint(1, 28), rng.randint(0, 23), rng.randint(0, 59), rng.randint(0, 59))
+        sfx, off = forms[j % len(forms)] if j < len(forms) else rng.choice(forms)
+        items.append((base, sfx, off))
+    nodes = []
+    for j, (base, sfx, off) in enumerate(items):
+        txt = base.strftime("%Y-%m-%dT%H:%M:%S") + sfx
+        if j % 4 == 3:
+            val = '<ListOfDateTime xmlns="%s"><DateTime>%s</DateTime><DateTime>2001-02-03T04:05:06Z</DateTime></ListOfDateTime>' % (T, txt)
+        else:
+            val = '<DateTime xmlns="%s">%s</DateTime>' % (T, txt)
+        nodes.append('<UAVariable NodeId="ns=1;i=%d" BrowseName="1:t%d" DataType="i=13"><DisplayName>t%d</DisplayName><Value>%s</Value></UAVariable>' % (100 + j, j, j, val))
+    text = ('<?xml version="1.0" encoding="utf-8"?>\n<UANodeSet xmlns="http://opcfoundation.org/UA/2011/03/UANodeSet.xsd">'
+            '<NamespaceUris><Uri>urn:t</Uri></NamespaceUris><Aliases/>' + "".join(nodes) + "</UANodeSet>")
+    d = sc.sub("dtprobe")
+    path = os.path.join(d, "t.xml")
+    open(path, "w", encoding="utf-8").write(text)
+    case = {"files": {"t.xml": text}}
+    run.case({"datetime_probe": len(items)}, tag="datetime")
+    run.compared += 1
+    try:
+        out = parse_xml_files([path])
+    except Exception as e:  # noqa: BLE001
+        run.violation(case, {"what": "parse raised on DateTime values: %s: %s" % (type(e).__name__, str(e)[:200])})
+        return
+    vals = {int(n.value): v for n, v in zip(out["nodes"]["NodeId"], out["nodes"]["Value"])}
+    for j, (base, sfx, off) in enumerate(items):
+        v = vals.get(100 + j)
+        if j % 4 == 3:
+            v = v.value[0] if type(v).__name__ == "UAListOf" and len(v.value) == 2 else None
+        got = getattr(v, "value", None)
+        ok = type(v).__name__ == "UADateTime" and isinstance(got, dtm.datetime) and got.replace(tzinfo=None) == base and \
+            (got.utcoffset() is None if off is None else (got.utcoffset() is not None and got.utcoffset() == dtm.timedelta(minutes=off)))
+        if not ok:
+            run.violation(case, {"what": "the Value written as %s%s is not that point in time (clock fields and offset)" % (base.isoformat(), sfx), "impl": repr(v)[:300],
+                                 "call": "opcua_tools.parse_xml_files([file])['nodes']['Value']"})
             return
 
 
